@@ -4,7 +4,10 @@ from __future__ import annotations
 import ast
 import binascii
 
-import z3
+try:
+    import z3
+except Exception:  # concrete-only interpreter (/venv/bin/python)
+    z3 = None
 
 from . import values as V
 from .engine import (
@@ -314,8 +317,10 @@ def repeat_elem(eng, x, n):
     else:
         f = V.uf("rep_int", z3.IntSort(), z3.IntSort(), V.seq_sort("int"))
         r = SSeq(f(V._zi(x), V._zi(n)), "int", "list")
+    from .contract import ForAll
+
     eng.pc.append(z3.Length(r.t) == z3.If(V._zi(n) >= 0, V._zi(n), 0))
-    eng.ghost.setdefault("repeats", []).append((r, x, n))
+    eng.register_forall(ForAll(lambda k: rep_facts(r, x, n, k), over=r))
     return r
 
 
@@ -511,7 +516,7 @@ def _seq_index(eng, items, idx, node, cellkind):
     n = V.L(items)
     eng.safety(V.And(idx >= -n, idx < n) if True else True, "IndexError", "index-in-range", node)
     if is_sym(idx):
-        i2 = V.ite(idx < 0, idx + n, idx)
+        i2 = idx if V.known(idx >= 0) else V.ite(idx < 0, idx + n, idx)
     else:
         i2 = idx if idx >= 0 else n + idx
     e = V.nth(items, i2)
@@ -579,13 +584,22 @@ def set_item(eng, o, idx, v, node):
                 lst[idx] = v
                 eng.set_field(o, "items", tuple(lst) if k == "list" else (bytes(lst) if not any(is_sym(x) for x in lst) else V.to_seq(lst, "byte", "bytearray")))
                 return
+            from .contract import ForAll
+
             s = _seqify(items) if isinstance(items, tuple) else V.to_seq(items) if not isinstance(items, SSeq) else items
             n = V.L(s)
             eng.safety(V.And(idx >= -n, idx < n), "IndexError", "index-in-range", node)
-            i2 = V.ite(idx < 0, idx + n, idx) if is_sym(idx) else (idx if idx >= 0 else n + idx)
-            unit = V.to_seq([v], elem=s.elem, py=s.py)
-            new = V.concat(V.concat(V.slice_(s, 0, i2), unit), V.slice_(s, i2 + 1, None))
-            eng.set_field(o, "items", SSeq(new.t, s.elem, s.py))
+            if is_sym(idx):
+                i2 = idx if V.known(idx >= 0) else V.ite(idx < 0, idx + n, idx)
+            else:
+                i2 = idx if idx >= 0 else n + idx
+            # array-store axiomatisation: fresh sequence, same length, element i2 replaced, rest unchanged
+            # (the frame fact is instantiated wherever the new sequence is read)
+            new = eng.fresh_seq("upd", s.elem, s.py)
+            eng.pc.append(z3.Length(new.t) == V._zi(n))
+            eng.pc.append((new.t[V._zi(i2)] == V._zi(v)) if s.elem != "bool" else (new.t[V._zi(i2)] == V._zb(v)))
+            eng.register_forall(ForAll(lambda k: V.Implies(V.And(k >= 0, k < n, k != i2), V.eq(V.nth(new, k), V.nth(s, k))), over=new))
+            eng.set_field(o, "items", new)
             return
     if isinstance(o, SOpq) and eng.abstract:
         eng.event("setitem", "setitem", o, (idx, v), {}, node)
@@ -1222,9 +1236,11 @@ def _bytes(eng, args, kwargs, node):
     if isinstance(x, (int, SInt)) and not isinstance(x, bool):
         if is_sym(x):
             eng.safety(x >= 0, "ValueError", "bytes-count-nonneg", node)
+            from .contract import ForAll
+
             z = V.repeat_zero_bytes(x)
             eng.pc.append(z3.Length(z.t) == x.t)
-            eng.ghost.setdefault("zeros", []).append((z, x))
+            eng.register_forall(ForAll(lambda k: V.Implies(V.And(k >= 0, k < x), V.nth(z, k) == 0), over=z))
             return z
         if x < 0:
             raise RaiseExc("ValueError", (), node, implicit=True)
@@ -1618,18 +1634,46 @@ def any_true_fn():
     return V.uf("any_true", V.seq_sort("bool"), z3.BoolSort())
 
 
+def all_true(eng, c):
+    """reduce(and_, c, True) over a bool list of unknown length: uninterpreted term + its two defining
+    facts (assumed contract of functools.reduce/operator.and_): all_true => every element; not all_true =>
+    some witness element is False"""
+    from .contract import ForAll
+
+    r = SBool(all_true_fn()(c.t))
+    key = ("alltrue", c.t.get_id())
+    if key not in eng._inst_seen:
+        eng._inst_seen.add(key)
+        n = V.L(c)
+        eng.register_forall(ForAll(lambda k: V.Implies(V.And(r, k >= 0, k < n), V.nth(c, k)), over=c))
+        w = SInt(V.uf("all_true_witness", V.seq_sort("bool"), z3.IntSort())(c.t))
+        eng.pc.append(z3.Implies(z3.Not(r.t), z3.And(w.t >= 0, w.t < V._zi(n))))
+        eng.pc.append(z3.Implies(z3.Not(r.t), z3.Not(c.t[w.t])))
+    return r
+
+
+def any_true(eng, c):
+    from .contract import ForAll
+
+    r = SBool(any_true_fn()(c.t))
+    key = ("anytrue", c.t.get_id())
+    if key not in eng._inst_seen:
+        eng._inst_seen.add(key)
+        n = V.L(c)
+        eng.register_forall(ForAll(lambda k: V.Implies(V.And(V.Not(r), k >= 0, k < n), V.Not(V.nth(c, k))), over=c))
+        w = SInt(V.uf("any_true_witness", V.seq_sort("bool"), z3.IntSort())(c.t))
+        eng.pc.append(z3.Implies(r.t, z3.And(w.t >= 0, w.t < V._zi(n))))
+        eng.pc.append(z3.Implies(r.t, c.t[w.t]))
+    return r
+
+
 def builtin_reduce_model(eng, f, c, init, node):
-    """reduce(and_/or_, bools, init) over a symbolic bool list -> uninterpreted all_true/any_true;
-    the defining facts (skolem / witness instances) are supplied where contracts need them."""
+    """reduce(and_/or_, bools, init) over a symbolic bool list"""
     name = f.dotted.split(".")[-1] if isinstance(f, ExtRef) else None
     if c.elem == "bool" and name == "and_":
-        r = SBool(all_true_fn()(c.t))
-        eng.ghost.setdefault("alltrue", []).append((c, r))
-        return V.And(init, r)
+        return V.And(init, all_true(eng, c))
     if c.elem == "bool" and name == "or_":
-        r = SBool(any_true_fn()(c.t))
-        eng.ghost.setdefault("anytrue", []).append((c, r))
-        return V.Or(init, r)
+        return V.Or(init, any_true(eng, c))
     raise EngineError("reduce over a symbolic sequence with an unmodelled function")
 
 
